@@ -21,6 +21,17 @@ def main():
             if not r["ok"]:
                 print(r["out"][-3000:])
                 return 1
+    # optional per-check prebuild (generated models + their proofs), in parallel
+    ready = (HERE / "READY").read_text().split() if (HERE / "READY").exists() else []
+    procs = []
+    for pid in ready:
+        src = HERE / "checks" / f"{pid.lower()}.py"
+        if src.exists() and "def prebuild" in src.read_text():
+            procs.append((pid, subprocess.Popen(["timeout", "2400", "python3", str(HERE / "check.py"), pid, "--prebuild"],
+                                                cwd=str(HERE.parent))))
+    for pid, p in procs:
+        rc = p.wait()
+        print(f"prebuild {pid}: rc={rc}", flush=True)
     print(f"setup done in {time.time()-t0:.0f}s")
     return 0
 
